@@ -179,7 +179,18 @@ class Evaluator(object):
         m = getattr(self, "ev_" + type(node).__name__, None)
         if m is None:
             raise Outside("expression %s" % type(node).__name__)
-        return m(node, st)
+        memo = getattr(self, "_memo", None)
+        if memo is None or not self.spec or isinstance(node, (ast.Constant, ast.Name)):
+            return m(node, st)
+        # spec expressions are pure: contracts assembled by string substitution repeat large sub-terms, evaluate each once per state
+        d = getattr(node, "_dump", None)
+        if d is None:
+            d = node._dump = ast.dump(node)
+        key = (id(st), d, tuple(sorted((k, v.e.get_id()) for k, v in self.bound.items() if v.e is not None)) if self.bound else ())
+        r = memo.get(key)
+        if r is None:
+            r = memo[key] = (m(node, st), st)     # keeps st alive: id(st) stays unique while the memo lives
+        return r[0]
 
     def ev_Constant(self, node, st):
         v = node.value
